@@ -8,6 +8,8 @@ about the *generated* program (it is rebuilt after every regeneration).
 ops (one line in, one line out):
 * `violations` -> `n || <explanation 1> || …` : functions whose obligation
   `checkFn sigma f body = true` fails, each with the offending path;
+* `orderviolations` -> the acquired-while-holding edges that break the lock-class order, with functions;
+* `edges` -> all acquired-while-holding class pairs;
 * `stats` -> `functions=… locks=… classes=… entries=… declared=… skipped=… inlined=… trivial=…`;
 * `skipped` / `declared` / `inlined` / `files` -> the corresponding generated tables;
 * `consistent` -> `true|false` (the compiled `consistent sigma prog`).
@@ -26,6 +28,8 @@ def sep (xs : List String) : String := s!"{xs.length}" ++ String.join (xs.map (f
 def step (_ : Unit) (ws : List String) : Unit × String :=
   match ws with
   | ["violations"] => ((), sep ((Diag.explainAll names sigma prog).map (·.2)))
+  | ["orderviolations"] => ((), sep (Diag.explainEdges names (fun c => classNames.getD c s!"class#{c}") classNames.length lockClass acqTbl sigma prog))
+  | ["edges"] => ((), sep (Diag.showEdges (fun c => classNames.getD c s!"class#{c}") ((edgesProg lockClass acqTbl sigma prog []).getD [])))
   | ["consistent"] => ((), toString (consistent sigma prog && entriesBalanced sigma entries))
   | ["stats"] => ((), s!"functions={prog.length} locks={lockNames.length} classes={classNames.length} entries={entries.length} declared={declared.length} skipped={skipped.length} inlined={inlinedFns.length} trivial={trivialFns.length}")
   | ["skipped"] => ((), sep (skipped.map (fun x => x.1 ++ " — " ++ x.2)))
